@@ -178,7 +178,7 @@ pub fn run_c18(ctx: &mut Ctx, _replay: Option<&[String]>) {
         ctx.emit(&format!("c18 name {}", i), &format!("{} {} {} {}", dbg, disp, clapname, rt), true, &["name-row"]);
     }
     // behaviour: factory-built vs directly constructed expected (arithmetic, schedule)
-    let per_name = ctx.scale(25, 400);
+    let per_name = ctx.scale(25, 2000);
     // separation measurement: result vectors per name on a common family
     let common: Vec<(SparseMatrix, Vec<(usize, Vec<f64>)>)> = (0..ctx.scale(40, 120))
         .map(|_| {
@@ -231,7 +231,7 @@ pub fn run_c18(ctx: &mut Ctx, _replay: Option<&[String]>) {
     ctx.extra.insert("separation_pairs_unseparated".into(), format!("{} {}", unsep.len(), unsep.join(",")));
     // non-member strings
     let names: Vec<String> = impls.iter().map(|i| i.to_string()).collect();
-    for _ in 0..ctx.scale(2000, 20000) {
+    for _ in 0..ctx.scale(2000, 200000) {
         let base = rng.pick(&names).clone();
         let s = match rng.below(9) {
             0 => base.to_lowercase(),
